@@ -18,7 +18,7 @@ ASSUMPTIONS = [LEVEL_NOTE, "readelf is ground truth"]
 
 
 def plan(tier):
-    return {"n": 24 if tier == "quick" else 300, "floor": 12 if tier == "quick" else 150, "samples": 3}
+    return {"n": 24 if tier == "quick" else 96, "floor": 12 if tier == "quick" else 48, "samples": 3}
 
 
 def rule(tier):
